@@ -1008,7 +1008,8 @@ impl fmt::Display for Type1<'_> {
         t1_str.push_str(&comments.to_string());
       }
 
-      if ident_tail {
+      // a control operator is a name: it always needs a separator before its controller
+      if ident_tail || matches!(o.operator, RangeCtlOp::CtlOp { .. }) {
         t1_str.push(' ');
       }
 
@@ -1023,7 +1024,8 @@ impl fmt::Display for Type1<'_> {
     if let Some(o) = &self.operator {
       t1_str.push_str(&o.operator.to_string());
 
-      if ident_tail {
+      // a control operator is a name: it always needs a separator before its controller
+      if ident_tail || matches!(o.operator, RangeCtlOp::CtlOp { .. }) {
         t1_str.push(' ');
       }
 
